@@ -36,6 +36,7 @@ type Exec struct {
 	cbs       map[int]*cbInfo
 	ranFns    map[*ssa.Function]bool
 	lastCalls map[string][]*Cell
+	stickyCells map[string][2]*Cell
 }
 
 // cbInfo: a callback that a callee invokes repeatedly (`calls P loop`): the
